@@ -41,7 +41,7 @@ func c16Gen(rng *rand.Rand, conf string, idx int) any {
 	if conf == "grid" {
 		w := &C16W{Grid: true}
 		w.Sessions = []C16Session{{Kind: "cut", CutDir: idx / c16GridOffsets % 2, CutOff: idx % c16GridOffsets}}
-		w.Ops = opsOf("start", "settle", "request", "settle", "stop", "wait", "start", "settle", "request", "settle", "request", "stop", "wait")
+		w.Ops = opsOf("start", "settle", "request", "settle", "stop", "wait", "start", "settle", "wait-alive", "request", "settle", "request", "stop", "wait")
 		return w
 	}
 	w := &C16W{}
@@ -62,7 +62,7 @@ func c16Gen(rng *rand.Rand, conf string, idx int) any {
 			w.Ops = append(w.Ops, C16Op{"settle"})
 		}
 		for k, m := 0, rng.Intn(3); k < m; k++ {
-			w.Ops = append(w.Ops, C16Op{pick(rng, []string{"request", "settle", "wait-if-stopped", "request"})})
+			w.Ops = append(w.Ops, C16Op{pick(rng, []string{"request", "settle", "wait-if-stopped", "request", "wait-alive"})})
 		}
 		switch rng.Intn(3) {
 		case 0:
@@ -83,7 +83,7 @@ func c16Gen(rng *rand.Rand, conf string, idx int) any {
 	}
 	// finally: a healthy session must work
 	w.Ops = append(w.Ops, C16Op{"join"})
-	w.Ops = append(w.Ops, opsOf("start", "settle", "request", "settle", "request", "stop", "wait")...)
+	w.Ops = append(w.Ops, opsOf("start", "settle", "wait-alive", "request", "settle", "request", "stop", "wait")...)
 	return w
 }
 
@@ -234,7 +234,7 @@ func c16Exec(t *testing.T, w *C16W, sc SchedCfg, ph *c16Phases, rec *c16Phases) 
 		}
 		e.OnTeardown(func() { st.Stop() })
 		results := make([]*c16OpRes, len(w.Ops))
-		var runs []*c16OpRes
+		var runs, waits []*c16OpRes
 		started := false // our belief: the last Start returned nil and no stop/loss since
 		startedSessions := 0
 		maybeSessions := 0 // sessions started through Run(): established or not cannot be told apart
@@ -314,6 +314,22 @@ func c16Exec(t *testing.T, w *C16W, sc SchedCfg, ph *c16Phases, rec *c16Phases) 
 					if op.Op == "wait" || !started {
 						st.Wait()
 					}
+				case "wait-alive":
+					// Wait() issued while the session is believed alive: it must block until the session ends
+					if started && len(w.Side) == 0 {
+						wa := &c16OpRes{Op: "wait-alive"}
+						waits = append(waits, wa)
+						e.Task(fmt.Sprintf("wait-alive-%d", i), func() {
+							st.Wait()
+							wa.Done = true
+						})
+						e.S.Settle("caller")
+						if wa.Done && started {
+							if end := curEnd(); end != nil && !end.IsDown() {
+								r.Err = fmt.Errorf("Wait() returned although the stub is started and its session is alive")
+							}
+						}
+					}
 				case "lose":
 					if end := curEnd(); end != nil {
 						end.Close()
@@ -382,6 +398,17 @@ func c16Exec(t *testing.T, w *C16W, sc SchedCfg, ph *c16Phases, rec *c16Phases) 
 			if r == nil || !r.Done {
 				res.Violate("C16."+w.Side[i].Op+"-returns", "%s issued by a second task concurrently with %v did not return (%v)", w.Side[i].Op, opNames(w.Ops), rerr)
 				return
+			}
+		}
+		for _, wa := range waits {
+			if !wa.Done {
+				res.Violate("C16.wait-returns", "a Wait() call issued while the session was alive had not returned after the session was stopped or lost; ops %v", opNames(w.Ops))
+				return
+			}
+		}
+		for i, r := range results {
+			if r != nil && r.Op == "wait-alive" && r.Err != nil {
+				res.Violate("C16.wait-blocks-while-alive", "operation %d of %v: %v (close notifications so far: %d)", i+1, opNames(w.Ops), r.Err, closes)
 			}
 		}
 		for _, rr := range runs {
